@@ -1037,6 +1037,8 @@ func driveEcal(c Case, ms []evModel) *hx.Failure {
 		return hx.Failf("ecal-route-incomplete", "the ECAL program did not reach its end (last marker %d)\n%s", cur, src)
 	}
 	for ei, e := range c.Events {
+		hx.E.Class("ecal.events", 1)
+		hx.E.Class("ecal.sink-runs", int64(len(per[ei])))
 		if f := compareFired("ecal", c, e, ms[ei], per[ei]); f != nil {
 			f.Msg += "\n  earlier events: " + history(c, ei) + "\n" + src
 			return f
